@@ -43,6 +43,8 @@ def cases(tier):
             out.append({"name": "vol_3_%s_big_%s" % (mode, dt), "shape": (3,), "mode": mode, "what": "vol", "dtype": dt, "big": True})
     for shp in ([(2, 2)] if tier == "quick" else [(2, 3), (2, 2, 2)]):
         out.append({"name": "cldice_%s" % "x".join(map(str, shp)), "shape": shp, "mode": "none", "what": "cl"})
+    # clDice called on whole label maps (no selection) hands the caller's own arrays to the kernel: they must come back untouched
+    out.append({"name": "cldice_label_maps_untouched", "shape": (2, 2), "mode": "none", "what": "cl", "dtype": "uint8", "maxval": 2, "mut_only": True})
     return out
 
 
@@ -66,8 +68,8 @@ def run_case(case):
         rv = [z3.Int("r%d" % i) for i in range(n)]
         pv = [z3.Int("p%d" % i) for i in range(n)]
         for v in rv + pv:
-            declare_bounds(v, 0, 1)
-            base.append(z3.And(v >= 0, v <= 1))
+            declare_bounds(v, 0, case.get("maxval", 1))
+            base.append(z3.And(v >= 0, v <= case.get("maxval", 1)))
         X, Y = [v == 1 for v in rv], [v == 1 for v in pv]
         ridx = pidx = None
         idx_vars = []
@@ -107,7 +109,7 @@ def run_case(case):
     U = A + B - I
 
     def decode(m):
-        d = {"shape": list(shape), "dtype": dt, "mode": mode, "what": case["what"],
+        d = {"shape": list(shape), "dtype": dt, "mode": mode, "what": case["what"], "mut_only": bool(case.get("mut_only")),
              "ref": [jsonable(v, m) for v in rv], "pred": [jsonable(v, m) for v in pv]}
         if mode != "none":
             d["ridx"] = jsonable(idx_vars[0], m)
@@ -190,10 +192,21 @@ def run_case(case):
         except EngineSignal:
             raise
         except WriteToProtected as e:
-            h.fail("no_input_mutation", detail=str(e))
+            if case.get("mut_only"):
+                # the write is into the caller's label map; it is observable on maps holding a label other than 0/1
+                h.ok("no_input_mutation", z3.Not(z3.Or([v >= 2 for v in rv + pv])), detail=str(e))
+            else:
+                h.fail("no_input_mutation", detail=str(e))
             return
         except Exception as e:
-            h.fail("cldice_no_exception", detail="%s: %s" % (type(e).__name__, str(e)[:100]))
+            if not case.get("mut_only"):
+                h.fail("cldice_no_exception", detail="%s: %s" % (type(e).__name__, str(e)[:100]))
+            return
+        if case.get("mut_only"):
+            h.ok("no_input_mutation", True)
+            h.note_nontrivial("labels")
+            h.note_nontrivial("labels2")
+            h.witness(expect=None)
             return
         # skeleton subsets chosen by the stub on this path (first call: reference, second: prediction)
         sk = stubs._skel_cache
@@ -233,6 +246,14 @@ def real_metric(case, mode, expect):
     ref = np.array(case["ref"], dtype=case["dtype"]).reshape(shape)
     pred = np.array(case["pred"], dtype=case["dtype"]).reshape(shape)
     ref0, pred0 = ref.copy(), pred.copy()
+    if case["what"] == "cl" and case.get("mut_only"):
+        try:
+            Metric.clDSC(ref, pred)
+        except Exception:
+            pass
+        same = np.array_equal(ref, ref0) and np.array_equal(pred, pred0)
+        return {"match": True, "violates": not same, "observed": None,
+                "reason": None if same else "no_input_mutation: clDSC on label maps %s / %s left them as %s / %s" % (ref0.tolist(), pred0.tolist(), ref.tolist(), pred.tolist())}
     if case["what"] == "cl":
         return {"match": True, "why": "clDice witnesses depend on the real skeleton; not compared"} if mode == "witness" else {"error": "clDice replay needs the skeleton choice"}
     if case["mode"] == "none":
